@@ -57,8 +57,13 @@ def replay_(
             return ReplaySubject(buffer_size, window, scheduler)
 
         return ops.multicast(subject_factory=subject_factory, mapper=mapper)
-    rs: ReplaySubject[_TSource] = ReplaySubject(buffer_size, window, scheduler)
-    return ops.multicast(subject=rs)
+    def replay(source: Observable[_TSource]) -> ConnectableObservable[_TSource]:
+        # Create the subject per application so that one operator object
+        # applied to several sources does not make them share a buffer.
+        rs: ReplaySubject[_TSource] = ReplaySubject(buffer_size, window, scheduler)
+        return ops.multicast(subject=rs)(source)  # type: ignore
+
+    return replay
 
 
 __all__ = ["replay_"]
